@@ -142,6 +142,13 @@ var glUnits = []glUnit{
 		{"protocol/model", "T0x1210", "Parse"},
 		{"protocol/model", "T0x1211", "Encode"},
 		{"protocol/model", "T0x1211", "Parse"},
+		{"protocol/model", "BaseHandle", "ReplyBody"},
+		{"protocol/model", "T0x0100", "ReplyBody"},
+		{"protocol/model", "T0x0102", "ReplyBody"},
+		{"protocol/model", "T0x0002", "ReplyBody"},
+		{"protocol/model", "T0x0200", "ReplyBody"},
+		{"protocol/model", "T0x0801", "ReplyBody"},
+		{"protocol/model", "T0x0704", "ReplyBody"},
 	}},
 }
 
